@@ -661,3 +661,140 @@ func loadStringSet(path string) map[string]bool {
 	}
 	return out
 }
+
+// AliasReuseSites lists expressions in fn that make a new slice value share the backing array of a live one in a way
+// that later appends overwrite: X[:0] / X[:k] (two-index reslice from 0) used as an assignment source or as the first
+// argument of append.  (X[:0:0] and append([]T(nil), X...) are the copying idioms and are not listed.)
+func AliasReuseSites(fi *FuncInfo) []string {
+	var out []string
+	if fi.Decl.Body == nil {
+		return nil
+	}
+	isPrefixReslice := func(e ast.Expr) bool {
+		se, ok := ast.Unparen(e).(*ast.SliceExpr)
+		if !ok || se.Slice3 {
+			return false
+		}
+		if se.Low != nil {
+			if bl, ok := se.Low.(*ast.BasicLit); !ok || bl.Value != "0" {
+				return false
+			}
+		}
+		return se.High != nil
+	}
+	pos := func(n ast.Node) string {
+		ps := fi.Pkg.Fset.Position(n.Pos())
+		return fmt.Sprintf("%s:%d", relFile(ps.Filename), ps.Line)
+	}
+	ast.Inspect(fi.Decl.Body, func(n ast.Node) bool {
+		switch s := n.(type) {
+		case *ast.AssignStmt:
+			for i, r := range s.Rhs {
+				if isPrefixReslice(r) && i < len(s.Lhs) {
+					// x = x[:n] as a pure truncation of a local that is not reused for appending is harmless, but we
+					// cannot tell: listed; the reviewed tree's occurrences are in the baseline of accepted sites
+					out = append(out, fmt.Sprintf("%s = %s (%s)", types.ExprString(s.Lhs[i]), types.ExprString(r), pos(s)))
+				}
+			}
+		case *ast.CallExpr:
+			if id, ok := s.Fun.(*ast.Ident); ok && id.Name == "append" && len(s.Args) > 0 && isPrefixReslice(s.Args[0]) {
+				out = append(out, fmt.Sprintf("%s (%s)", types.ExprString(s), pos(s)))
+			}
+		}
+		return true
+	})
+	return out
+}
+
+// isFreshSliceExpr: expression forms that allocate a new backing array.
+func isFreshSliceExpr(info *types.Info, e ast.Expr) bool {
+	e = ast.Unparen(e)
+	switch x := e.(type) {
+	case *ast.Ident:
+		return x.Name == "nil"
+	case *ast.CompositeLit:
+		return true
+	case *ast.CallExpr:
+		if id, ok := x.Fun.(*ast.Ident); ok {
+			switch id.Name {
+			case "make":
+				return true
+			case "append":
+				if len(x.Args) == 0 {
+					return false
+				}
+				a0 := ast.Unparen(x.Args[0])
+				if id0, ok := a0.(*ast.Ident); ok && id0.Name == "nil" {
+					return true
+				}
+				if cl, ok := a0.(*ast.CompositeLit); ok && len(cl.Elts) == 0 {
+					return true
+				}
+				if conv, ok := a0.(*ast.CallExpr); ok && len(conv.Args) == 1 {
+					if tv, ok := info.Types[conv.Fun]; ok && tv.IsType() {
+						if id1, ok := ast.Unparen(conv.Args[0]).(*ast.Ident); ok && id1.Name == "nil" {
+							return true
+						}
+					}
+				}
+				if se, ok := a0.(*ast.SliceExpr); ok && se.Slice3 {
+					// x[:0:0]
+					if isZeroLit(se.High) && isZeroLit(se.Max) {
+						return true
+					}
+				}
+				return false
+			}
+		}
+	}
+	return false
+}
+
+func isZeroLit(e ast.Expr) bool {
+	bl, ok := e.(*ast.BasicLit)
+	return ok && bl.Value == "0"
+}
+
+// StaleFieldStores lists stores into fields named name (assignment or composite-literal key) whose value is not a fresh slice
+// and not an append onto the same field path.
+func StaleFieldStores(fi *FuncInfo, name string) []string {
+	var out []string
+	info := fi.Pkg.TypesInfo
+	pos := func(n ast.Node) string {
+		ps := fi.Pkg.Fset.Position(n.Pos())
+		return fmt.Sprintf("%s:%d", relFile(ps.Filename), ps.Line)
+	}
+	okExpr := func(lhs ast.Expr, e ast.Expr) bool {
+		if isFreshSliceExpr(info, e) {
+			return true
+		}
+		if lhs != nil {
+			if call, ok := ast.Unparen(e).(*ast.CallExpr); ok {
+				if id, ok := call.Fun.(*ast.Ident); ok && id.Name == "append" && len(call.Args) > 0 && types.ExprString(call.Args[0]) == types.ExprString(lhs) {
+					return true
+				}
+			}
+		}
+		return false
+	}
+	ast.Inspect(fi.Decl.Body, func(n ast.Node) bool {
+		switch s := n.(type) {
+		case *ast.AssignStmt:
+			for i, l := range s.Lhs {
+				if se, ok := l.(*ast.SelectorExpr); ok && se.Sel.Name == name && i < len(s.Rhs) {
+					if !okExpr(l, s.Rhs[i]) {
+						out = append(out, fmt.Sprintf("%s = %s (%s)", types.ExprString(l), types.ExprString(s.Rhs[i]), pos(s)))
+					}
+				}
+			}
+		case *ast.KeyValueExpr:
+			if id, ok := s.Key.(*ast.Ident); ok && id.Name == name {
+				if _, isSlice := info.TypeOf(s.Value).Underlying().(*types.Slice); isSlice && !okExpr(nil, s.Value) {
+					out = append(out, fmt.Sprintf("%s: %s (%s)", name, types.ExprString(s.Value), pos(s)))
+				}
+			}
+		}
+		return true
+	})
+	return out
+}
